@@ -17,6 +17,7 @@ fault-free run R0 of the *same real code* with the same arguments:
        exercise the error paths of the glue and must not crash the interpreter
    F4  the fault-free run itself returns a value or raises deterministically (same outcome twice)
    F5  after a run in which a fault fired, the fault-free run gives R0 again (a fault leaves nothing behind)
+   A2  what the callable hands back stays the callable's: the driver reads the result, it does not take it apart
    A1  what the callable was handed stays what it was: an argument (list) kept by the callable is not changed by
        the driver afterwards, nor by any later driver call (the Rust closure owns its argument)
    R1  a callable that, on its first invocation, calls the same driver again (same length, other point) before
@@ -182,6 +183,7 @@ class Probe:
         self.kept = []        # (invocation, argument objects, their elements, snapshot when handed over)
         self.inner = None     # outcome of the re-entrant inner call, if the plan asked for one
         self.reenter = None   # set by invoke(): a thunk performing the inner call
+        self.returned = []    # (invocation, the object the callable returned, its elements, snapshot)
 
     def __call__(self, *args):
         self.calls += 1
@@ -194,9 +196,11 @@ class Probe:
                 # the other call happens after the callable has computed its result, before it returns it
                 res = self.fn(*args)
                 self.inner = self.reenter()
-                return res
-            self.inner = self.reenter()
-            return self.fn(*args)
+            else:
+                self.inner = self.reenter()
+                res = self.fn(*args)
+            self.returned.append((k, res, list(res) if isinstance(res, (list, tuple)) else None, snapshot((res,))))
+            return res
         fire = p["kind"] != "none" and (k == p["at"] or (p.get("permanent") and k >= p["at"]))
         self.log.append(("call", k, bool(fire)))
         if fire:
@@ -215,7 +219,10 @@ class Probe:
                 raise e
             if p["kind"] == "wrong_return":
                 return WRONG_RETURNS[p["ret"]](args)
-        return self.fn(*args)
+        res = self.fn(*args)
+        # what the callable hands back stays the callable's: a cached or logged result must still be what it was
+        self.returned.append((k, res, list(res) if isinstance(res, (list, tuple)) else None, snapshot((res,))))
+        return res
 
 
 def snapshot(args):
@@ -225,6 +232,12 @@ def snapshot(args):
 
 def kept_changed(pr):
     """None, or a description of an argument of `pr`'s callable that is no longer what it was when handed over"""
+    for k, res, elems, snap in pr.returned:
+        now = snapshot((res,))
+        if now != snap:
+            return f"the object the callable returned at invocation {k} has changed: was {str(snap)[:160]}, is now {str(now)[:160]}"
+        if elems is not None and (len(res) != len(elems) or any(x is not y for x, y in zip(res, elems))):
+            return f"the list the callable returned at invocation {k} holds other objects than when it was returned"
     for k, args, elems, snap in pr.kept:
         now = snapshot(args)
         if now != snap:
@@ -233,6 +246,12 @@ def kept_changed(pr):
             if el is not None and (len(a) != len(el) or any(x is not y for x, y in zip(a, el))):
                 return f"the list handed to the callable at invocation {k} holds other objects than when it was handed over (it was refilled in place)"
     return None
+
+
+def change_class(ch, later):
+    if "the callable returned" in ch:
+        return "A2_returned_object_changed"
+    return "A1_argument_changed_by_later_call" if later else "A1_argument_changed"
 
 
 def canon(v):
@@ -343,7 +362,7 @@ def judge(case, plan, r0, out, pr):
     """returns None or (class, message)"""
     changed = kept_changed(pr)
     if changed is not None:
-        return ("A1_argument_changed", changed + " (after the driver returned)")
+        return (change_class(changed, False), changed + " (after the driver returned)")
     if plan["kind"] == "none":
         return None
     if plan["kind"] == "reenter":
@@ -392,7 +411,7 @@ def run_scenario(case, plan):
     for old in (p0, p0b):
         ch = kept_changed(old)
         if ch is not None:
-            return ("A1_argument_changed_by_later_call", ch + " (two fault-free calls in a row)"), r0, r0b, p0
+            return (change_class(ch, True), ch + " (two fault-free calls in a row)"), r0, r0b, p0
     if plan["kind"] == "none":
         return None, r0, r0b, p0b
     out, pr = invoke(case, plan)
@@ -405,7 +424,7 @@ def run_scenario(case, plan):
         for old in (p0, p0b, pr):
             ch = kept_changed(old)
             if ch is not None:
-                j = ("A1_argument_changed_by_later_call", ch + f" (after a later call of {case['driver']})")
+                j = (change_class(ch, True), ch + f" (after a later call of {case['driver']})")
                 break
     return j, r0, out, pr
 
@@ -506,7 +525,7 @@ def main():
         for old in (p0, p0b):
             ch = kept_changed(old)
             if ch is not None:
-                violations.setdefault(f"A1_argument_changed_by_later_call:{case['driver']}", (ci, case, {"kind": "none"}, ("A1_argument_changed_by_later_call", ch + " (two fault-free calls in a row)"), r0, r0b, p0))
+                violations.setdefault(f"{change_class(ch, True)}:{case['driver']}", (ci, case, {"kind": "none"}, (change_class(ch, True), ch + " (two fault-free calls in a row)"), r0, r0b, p0))
         stats["drivers"][case["driver"]] = stats["drivers"].get(case["driver"], 0) + 1
         stats["lengths"].add(len(case["x"]))
         if r0 != r0b:
@@ -544,7 +563,7 @@ def main():
                 for old in recent:
                     ch = kept_changed(old)
                     if ch is not None:
-                        j = ("A1_argument_changed_by_later_call", ch + f" (after a later call of {case['driver']})")
+                        j = (change_class(ch, True), ch + f" (after a later call of {case['driver']})")
                         break
             recent.append(pr)
             del recent[:-3]
